@@ -3,6 +3,7 @@ CONSTANTS
   DirCls <- DirClsAll
   Namings <- NamingsAll
   FmtCls <- FmtClsAll
+  OutCls <- OutClsFile
   OpCls <- OpClsAll
   MaxOps = 2
   GenHist = TRUE
